@@ -41,7 +41,20 @@ pub fn file_ev(log: &mut Log, bytes: &[u8], items: &[Kv], ty: u64, nodes: i64, o
 pub fn c09(log: &mut Log, seed: u64, tier: &str) {
     let mut r = rng(seed, 9);
     let ins = inputs(&mut r, tier, true);
-    // "any builder": also one that streams into a sink accepting prefixes and interrupting
+    // "any builder": sets whose keys are offered more than once (a repeat is a no-op that must
+    // leave no trace, not even in the key count) ...
+    for (i, (name, keys)) in ins.iter().filter(|(_, k)| k.len() <= 200).take(if thorough(tier) { 60 } else { 20 }).enumerate() {
+        let mut b = Builder::new_type(Vec::new(), 0).unwrap();
+        for (j, k) in keys.iter().enumerate() {
+            for _ in 0..(1 + (i + j) % 3) {
+                b.add(k).unwrap();
+            }
+        }
+        let bytes = b.into_inner().unwrap();
+        let items: Vec<Kv> = keys.iter().map(|k| (k.clone(), 0)).collect();
+        file_ev(log, &bytes, &items, 0, -1, &format!("{} as a set with repeated adds", name));
+    }
+    // ... and one that streams into a sink accepting prefixes and interrupting
     {
         use crate::scen_sink::{build_through, Policy};
         for (i, (name, keys)) in ins.iter().filter(|(_, k)| k.len() <= 200).take(if thorough(tier) { 90 } else { 30 }).enumerate() {
@@ -268,7 +281,9 @@ const VIAS: &[&str] = &["slice", "vec", "cow", "arc", "map", "set", "map_data", 
 
 /// Exhaustive headers / footers over boundary values for lengths 0..=64.
 pub fn header_footer_space(log: &mut Log, r: &mut StdRng, tier: &str) {
-    let versions: &[u64] = &[0, 1, 2, 3, 4, 255, 256, 1 << 32, u64::MAX];
+    // (supported versions in the low byte with any other byte of the word set: still unsupported)
+    let versions: &[u64] = &[0, 1, 2, 3, 4, 255, 256, 1 << 32, u64::MAX, 259, 65539, (1 << 24) + 1, (1 << 32) + 3, (1 << 32) + 1, (1 << 40) + 2,
+                            (1 << 48) + 3, (1 << 56) + 3, (1 << 63) + 3];
     let maxlen = 64;
     for len in 0..=maxlen {
         for &v in versions {
@@ -348,6 +363,32 @@ pub fn c20(log: &mut Log, seed: u64, tier: &str) {
         raw_ev(log, &b, "length-sweep", VIAS[len % VIAS.len()]);
         if len % 3 == 0 && rechecksum(&mut b) {
             raw_ev(log, &b, "length-sweep-rechecksummed", VIAS[(len / 3) % VIAS.len()]);
+        }
+    }
+    // boundary values of the stored checksum field: on valid files, on a version-3 header followed
+    // by zeros, on random bodies
+    for (i, (bytes, _items)) in valid_small_fsts(&mut r, 6).into_iter().enumerate() {
+        let n = bytes.len();
+        if n < 36 {
+            continue;
+        }
+        for (j, field) in [0u32, 1, 0x8000_0000, 0xFFFF_FFFF, 0xA282_EAD8].iter().enumerate() {
+            let mut m = bytes.clone();
+            m[n - 4..].copy_from_slice(&field.to_le_bytes());
+            raw_ev(log, &m, "checksum-field", VIAS[(i + j) % VIAS.len()]);
+        }
+    }
+    for len in (36..=100usize).step_by(if thorough(tier) { 1 } else { 3 }) {
+        for (j, field) in [0u32, 1, 0xFFFF_FFFF].iter().enumerate() {
+            let mut b = vec![0u8; len];
+            b[..8].copy_from_slice(&le8(3));
+            b[len - 4..].copy_from_slice(&field.to_le_bytes());
+            raw_ev(log, &b, "v3-header-zeros", VIAS[(len + j) % VIAS.len()]);
+            let mut c: Vec<u8> = (0..len).map(|_| r.gen()).collect();
+            c[..8].copy_from_slice(&le8(3));
+            c[len - 12..len - 4].copy_from_slice(&le8(17));
+            c[len - 4..].copy_from_slice(&field.to_le_bytes());
+            raw_ev(log, &c, "checksum-field-random-body", VIAS[(len + j + 1) % VIAS.len()]);
         }
     }
     // every truncation and single-byte mutations of valid FSTs
